@@ -39,6 +39,7 @@ def run(repo: Repo, rep: Report, tier: str) -> None:
     rep.rule("scoped", "_serve_request empties cancel_req before every SCP run and after it on the normal path")
     rep.rule("writers", "cancel_req is written only by the four known functions")
     rep.rule("not-queued", "a stored C-CANCEL is not put on msg_queue as well")
+    check_handler_always_resumed(repo, rep, "reported")
     from ..delegate import delegate as _delegate23
     rep.rule("cancel-id-range", "a C-CANCEL can name every Message ID 0 .. 65535 (C17's numeric-range on the C_CANCEL primitive)")
     _delegate23(repo, rep, tier, "C17", ("numeric-range",), "cancel-id-range", "a C-CANCEL naming that Message ID cannot be built or converted: the operation with that ID can no longer be cancelled (the association is aborted instead)", only=lambda f: "C_CANCEL" in (f.get("function") or "") or "C_CANCEL" in str(f.get("key")))
@@ -258,3 +259,63 @@ def check_cancel_never_queued(repo, rep, rule: str) -> None:
                 rep.check(st is cancel, rule, fq, f"[{inst}] stored under its own Message ID: {st is cancel}", "below the limit the C-CANCEL must be stored under the Message ID it names", mod=dm, node=fn)
     rep.floor("C-CANCEL receptions evaluated", n, 8)
     return sizes
+
+
+def check_handler_always_resumed(repo, rep, rule: str) -> None:
+    """The handler learns about a C-CANCEL only by polling event.is_cancelled when it is resumed. _wrap_handler
+    therefore resumes the user's generator whenever the SCP asks for the next result and looks at the peer's state
+    (aborted / release requested) only *after* a result came back: a test in front of the advance ends the
+    operation without the handler ever being told about a cancel that arrived together with the release / abort.
+    Structural: on no path from the function's entry, or from a yield, to the next advance of the generator lies a
+    test of is_aborted() / is_release_requested() (directly or through a local function)."""
+    from ..cfg import CFG
+
+    rep.rule(rule, "_wrap_handler resumes the handler's generator before it looks at the peer's state: a matching C-CANCEL is always reported to the running handler")
+    sc = repo.mod("service_class")
+    fn = repo.func("service_class", "ServiceClass._wrap_handler")
+    fq = "service_class.ServiceClass._wrap_handler"
+    peer_fns = {f.name for f in ast.walk(fn) if isinstance(f, ast.FunctionDef) and f is not fn and any(isinstance(c, ast.Call) and isinstance(c.func, ast.Attribute) and c.func.attr in ("is_aborted", "is_release_requested") for c in ast.walk(f))}
+
+    def peer_test(nd):
+        if nd.ast is None:
+            return False
+        root = nd.ast.test if nd.kind == "test" and hasattr(nd.ast, "test") else nd.ast if nd.kind in ("stmt",) else None
+        if root is None:
+            return False
+        for c in walk_no_nested(root):
+            if isinstance(c, ast.Call) and ((isinstance(c.func, ast.Attribute) and c.func.attr in ("is_aborted", "is_release_requested")) or (isinstance(c.func, ast.Name) and c.func.id in peer_fns)):
+                return True
+        return False
+
+    params = [a.arg for a in fn.args.args]
+    gen = params[1] if len(params) > 1 else "handler"
+    cfg = CFG(fn, body=body_nodoc(fn), local_exc_only=True)
+    aliases = {gen} | {norm(a.targets[0]) for a in walk_no_nested(fn) if isinstance(a, ast.Assign) and isinstance(a.targets[0], ast.Name) and isinstance(a.value, ast.Call) and norm(a.value.func) == "iter" and a.value.args and norm(a.value.args[0]) == gen}
+
+    def advance(nd):
+        if nd.kind == "iter" and norm(nd.ast.iter) in aliases:
+            return True
+        if nd.ast is not None and nd.kind == "stmt":
+            return any(isinstance(c, ast.Call) and norm(c.func) == "next" and c.args and norm(c.args[0]) in aliases for c in walk_no_nested(nd.ast))
+        return False
+
+    adv = [nd for nd in cfg.nodes if advance(nd)]
+    if not adv:
+        rep.defer(f"{fq}: the advance of the handler's generator was not found")
+        return
+    starts = [cfg.entry] + [nd for nd in cfg.nodes if nd.kind == "stmt" and nd.ast is not None and any(isinstance(y, ast.Yield) for y in walk_no_nested(nd.ast))]
+    bad = None
+    for st in starts:
+        seen = cfg.reachable(st, without={a.id for a in adv if a is not st}, labels_excluded=("exc",))
+        for nid in seen:
+            nd = cfg.nodes[nid]
+            if nd is st or not peer_test(nd):
+                continue
+            # the test matters only if an advance lies behind it
+            behind = cfg.reachable(nd, labels_excluded=("exc",))
+            if any(a.id in behind for a in adv):
+                bad = (st, nd)
+                break
+        if bad:
+            break
+    rep.check(bad is None, rule, fq, bad[1].ast if bad else f"{len(adv)} advance site(s), {len(starts)} resume points", f"the peer's state is tested (line {bad[1].line if bad else '?'}) before the handler's generator is resumed: when a C-CANCEL and then an A-RELEASE-RQ / A-ABORT arrive between two results the handler is never resumed - a cancel whose message ID matches the running operation is not reported to its handler", mod=sc, node=bad[1].ast if bad else fn)
